@@ -6,6 +6,7 @@ package main
 // endpoints it wrote; the census below is model-free.  Model: SyslModel.Export.
 
 import (
+	"bytes"
 	"context"
 	"encoding/json"
 	"fmt"
@@ -70,6 +71,10 @@ func genXApp(r *Rand) *xApp {
 	for i := 0; i < nt; i++ {
 		tnames = append(tnames, fmt.Sprintf("T%d", i))
 	}
+	if r.Chance(1, 3) {
+		// a type name written in lower case (as the repository's own examples do: `request`, `order`)
+		tnames[r.Intn(nt)] = Pick(r, []string{"order", "customer", "user", "foo", "quote", "entry", "note"})
+	}
 	hasEnum := r.Bool()
 	for i, tn := range tnames {
 		t := xType{Name: tn}
@@ -127,6 +132,7 @@ func genXApp(r *Rand) *xApp {
 					rs.Seq = r.Chance(1, 4)
 				} else {
 					rs.Prim = "string"
+					rs.Seq = r.Chance(1, 3)
 				}
 				ep.Resps = append(ep.Resps, rs)
 			}
@@ -231,6 +237,37 @@ func exportOpenAPI3(m *sysl.Module, mode string, logger *logrus.Logger) ([]byte,
 	return e.SerializeOutput("Shop", mode)
 }
 
+// exportOpenAPI3Twice: one exporter asked for both encodings, `first` first: what it returns for an encoding must
+// not depend on what it was asked for before
+func exportOpenAPI3Twice(m *sysl.Module, first string, logger *logrus.Logger) (map[string][]byte, error) {
+	app := m.Apps["Shop"]
+	mod := &sysl.Module{Apps: map[string]*sysl.Application{syslutil.GetAppName(app.Name): app}}
+	mapper := syslwrapper.MakeAppMapper(mod)
+	mapper.IndexTypes()
+	mapper.ConvertTypes()
+	simpleApps, err := mapper.Map()
+	if err != nil {
+		return nil, err
+	}
+	e := exporter.MakeOpenAPI3Exporter(simpleApps, logger)
+	if err := e.Export(); err != nil {
+		return nil, err
+	}
+	second := "json"
+	if first == "json" {
+		second = "yaml"
+	}
+	out := map[string][]byte{}
+	for _, mode := range []string{first, second} {
+		b, err := e.SerializeOutput("Shop", mode)
+		if err != nil {
+			return nil, err
+		}
+		out[mode] = b
+	}
+	return out, nil
+}
+
 func init() { runners["C12"] = runC12 }
 
 func runC12(res *Result, tier string, rnd *Rand, replay string) {
@@ -277,6 +314,24 @@ func runC12(res *Result, tier string, rnd *Rand, replay string) {
 			res.Eval(key, true)
 			res.Count("export:openapi3:" + mode)
 			c12CheckOpenAPI3(res, in, a, out, mode)
+			if mode == "yaml" {
+				// the same application through one exporter, both encodings, in either order
+				func() {
+					defer func() { _ = recover() }()
+					first := []string{"yaml", "json"}[i%2]
+					both, err := exportOpenAPI3Twice(mod, first, logger)
+					if err != nil {
+						return
+					}
+					res.Count("export:openapi3:one-exporter-both-encodings")
+					for _, m2 := range []string{"yaml", "json"} {
+						fresh, err := exportOpenAPI3(mod, m2, logger)
+						if err == nil && !bytes.Equal(fresh, both[m2]) {
+							res.Violate(Violation{Sig: "serialisation-depends-on-earlier-call:" + m2, What: "asked for " + first + " first, the exporter's " + m2 + " output is not what a fresh exporter writes", Input: in})
+						}
+					}
+				}()
+			}
 			if mode == "yaml" && (tier == "thorough" || i%8 == 0) {
 				c12Reimport(res, in, a, out, "spec.yaml", logger)
 			}
@@ -338,6 +393,12 @@ func c12CheckOpenAPI3(res *Result, in map[string]any, a *xApp, out []byte, mode 
 	}
 	loader := openapi3.NewLoader()
 	doc, err := loader.LoadFromData(data)
+	if err != nil && strings.Contains(err.Error(), "kin-openapi bug found") {
+		// the validating library gives up on some cycles of schema references (it says so itself); that is its
+		// limit, not a fault of the document: such a document is not judged
+		res.Count("validator-gives-up-on-reference-cycle")
+		return
+	}
 	if err != nil {
 		viol("openapi3-not-loadable", "the output is not an OpenAPI 3 document: "+firstLine(err.Error()))
 		return
